@@ -1,4 +1,5 @@
 import math
+import os
 from typing import Callable
 
 import numpy as np
@@ -105,6 +106,8 @@ class StringEncoder:
         src = "\n".join(lines)
         l: dict = {}
         exec(src, {}, l)  # pylint: disable=exec-used
+        if os.environ.get("CAYLEYPY_VERIF") == "1":
+            l["f_"].__cv_source__ = src  # Verification hook: expose the generated source text.
         return l["f_"]
 
     def implement_permutation_1d(self, p: list[int]) -> Callable[[np.ndarray], np.ndarray]:
@@ -128,4 +131,6 @@ class StringEncoder:
         src = "f_ = lambda x: " + " | ".join(terms)
         l: dict = {}
         exec(src, {}, l)  # pylint: disable=exec-used
+        if os.environ.get("CAYLEYPY_VERIF") == "1":
+            l["f_"].__cv_source__ = src  # Verification hook: expose the generated source text.
         return l["f_"]
